@@ -5,6 +5,11 @@
 //!        newest complete version: `last_complete_band`, `resolve_band_id(LatestClosed)`, listing with LatestClosed and
 //!        restore with the default policy all select the GREATEST complete band; `NoCompleteBands` only when none.
 //!        Input {"bands": "CIIC.." , "deleted": n|null}.
+//!        Round 6: band ids that straddle a change in the number of digits (9999/10000, 99999/100000, mixed widths):
+//!        four real versions whose band directories are renamed on disk to the ids under test (no 10001 backups are
+//!        made), every complete / interrupted pattern: `list_band_ids` ascending NUMERICALLY, `last_band_id`,
+//!        `last_complete_band`, `resolve_band_id(LatestClosed | Latest)`, listing and default restore.
+//!        Input {"ids": [9998, 9999, 10000, 10001], "tails": "CCCI"}.
 //!  * `crash_empty_last_file` (C03, C08): for every file the newest backup wrote (BANDHEAD, every new data block,
 //!        every index hunk, BANDTAIL) the crash state "this file is present but EMPTY and nothing later was written":
 //!        every reader must agree about completeness (`Archive::band_is_closed`, `Band::is_closed`,
@@ -41,7 +46,7 @@ use conserve::{Apath, Archive, BackupOptions, Band, BandId, BandSelectionPolicy,
 use filetime::FileTime;
 use serde_json::{json, Value};
 
-type R = Result<Option<Value>, String>;
+pub type R = Result<Option<Value>, String>;
 
 macro_rules! su {
     ($e:expr) => {
@@ -78,24 +83,24 @@ pub fn dispatch(mode: &str, kind: &str, input: Option<&Value>) -> Option<Value> 
     })
 }
 
-fn found(kind: &str, input: Value, real: String, expected: &str, explain: &str) -> R {
+pub fn found(kind: &str, input: Value, real: String, expected: &str, explain: &str) -> R {
     Ok(Some(json!({"found": true, "kind": kind, "input": input, "real": real, "expected": expected, "explain": explain})))
 }
 
 /// true when a replay input is given and its field `key` differs from `val`
-fn skip(only: Option<&Value>, key: &str, val: &Value) -> bool {
+pub fn skip(only: Option<&Value>, key: &str, val: &Value) -> bool {
     match only {
         Some(o) => o.get(key).map(|v| v != val).unwrap_or(false),
         None => false,
     }
 }
 
-fn content(tag: &str, n: usize) -> Vec<u8> {
+pub fn content(tag: &str, n: usize) -> Vec<u8> {
     let s = tag.bytes().fold(7u8, |a, b| a.wrapping_mul(31).wrapping_add(b));
     (0..n).map(|i| (i as u8).wrapping_mul(17).wrapping_add(s) | 1).collect()
 }
 
-fn put(root: &Path, rel: &str, bytes: &[u8]) -> Result<(), String> {
+pub fn put(root: &Path, rel: &str, bytes: &[u8]) -> Result<(), String> {
     let p = root.join(rel);
     su!(std::fs::create_dir_all(p.parent().unwrap()));
     su!(std::fs::write(&p, bytes));
@@ -103,7 +108,7 @@ fn put(root: &Path, rel: &str, bytes: &[u8]) -> Result<(), String> {
 }
 
 /// Every entry below `root`, and `root` itself, gets mtime (secs, nanos); symlinks themselves, not their targets.
-fn pin_all(root: &Path, secs: i64, nanos: u32) -> Result<(), String> {
+pub fn pin_all(root: &Path, secs: i64, nanos: u32) -> Result<(), String> {
     let t = FileTime::from_unix_time(secs, nanos);
     let mut stack = vec![root.to_path_buf()];
     while let Some(d) = stack.pop() {
@@ -122,7 +127,7 @@ fn pin_all(root: &Path, secs: i64, nanos: u32) -> Result<(), String> {
     Ok(())
 }
 
-fn copy_dir(from: &Path, to: &Path) -> std::io::Result<()> {
+pub fn copy_dir(from: &Path, to: &Path) -> std::io::Result<()> {
     std::fs::create_dir_all(to)?;
     for e in std::fs::read_dir(from)? {
         let e = e?;
@@ -137,7 +142,7 @@ fn copy_dir(from: &Path, to: &Path) -> std::io::Result<()> {
 }
 
 /// rel path -> bytes of every regular file; symlinks as "-> target"; directories as entries with value None
-fn tree_snapshot(root: &Path) -> BTreeMap<String, Option<Vec<u8>>> {
+pub fn tree_snapshot(root: &Path) -> BTreeMap<String, Option<Vec<u8>>> {
     let mut out = BTreeMap::new();
     let mut stack = vec![root.to_path_buf()];
     while let Some(d) = stack.pop() {
@@ -163,7 +168,7 @@ fn tree_snapshot(root: &Path) -> BTreeMap<String, Option<Vec<u8>>> {
     out
 }
 
-fn snapshot_diff(got: &BTreeMap<String, Option<Vec<u8>>>, want: &BTreeMap<String, Option<Vec<u8>>>) -> Option<String> {
+pub fn snapshot_diff(got: &BTreeMap<String, Option<Vec<u8>>>, want: &BTreeMap<String, Option<Vec<u8>>>) -> Option<String> {
     let missing: Vec<&String> = want.keys().filter(|k| !got.contains_key(*k)).collect();
     let extra: Vec<&String> = got.keys().filter(|k| !want.contains_key(*k)).collect();
     let differ: Vec<&String> = want.keys().filter(|k| got.get(*k).map(|v| v != &want[*k]).unwrap_or(false)).collect();
@@ -174,7 +179,7 @@ fn snapshot_diff(got: &BTreeMap<String, Option<Vec<u8>>>, want: &BTreeMap<String
     }
 }
 
-async fn entries(archive: &Archive, policy: BandSelectionPolicy, subtree: Apath, monitor: Arc<TestMonitor>) -> Result<Vec<IndexEntry>, String> {
+pub async fn entries(archive: &Archive, policy: BandSelectionPolicy, subtree: Apath, monitor: Arc<TestMonitor>) -> Result<Vec<IndexEntry>, String> {
     let mut it = archive.iter_entries(policy, subtree, Exclude::nothing(), monitor).await.map_err(|e| e.to_string())?;
     let mut out = Vec::new();
     while let Some(e) = it.next().await {
@@ -183,7 +188,7 @@ async fn entries(archive: &Archive, policy: BandSelectionPolicy, subtree: Apath,
     Ok(out)
 }
 
-fn bid(n: u32) -> BandId {
+pub fn bid(n: u32) -> BandId {
     BandId::new(&[n])
 }
 
@@ -311,8 +316,133 @@ fn latest_closed_selection(only: Option<&Value>) -> R {
             drop(archive);
             let _ = std::fs::remove_dir_all(&apath);
         }
-        Ok(None)
+        wide_band_ids(only, tmp.path(), &src).await
     })
+}
+
+/// Band ids around 9999/10000 and 99999/100000 (directory names of different lengths: "b10000" sorts before "b9999"
+/// as a string).  Four real versions b0000..b0003 are made once; for every id set and every complete / interrupted
+/// pattern the four band directories are renamed to the ids under test in a fresh copy.
+async fn wide_band_ids(only: Option<&Value>, tmp: &Path, src: &Path) -> R {
+    const K: &str = "latest_closed_selection";
+    if only.map(|o| o.get("bands").is_some()).unwrap_or(false) {
+        return Ok(None);
+    }
+    let template = tmp.join("wide_template");
+    let archive = su!(Archive::create_path(&template).await);
+    let _ = std::fs::remove_dir_all(src);
+    for k in 0..4 {
+        put(src, "v", format!("content of version {k}").as_bytes())?;
+        put(src, &format!("only_{k}"), b"x")?;
+        pin_all(src, 1_600_000_000 + k as i64, 0)?;
+        let st = su!(conserve::backup(&archive, src, &BackupOptions::default(), Arc::new(VoidMonitor)).await);
+        if st.errors != 0 {
+            return Err(format!("setup: backup {k} reported errors"));
+        }
+    }
+    drop(archive);
+    let id_sets: [[u32; 4]; 5] = [[9998, 9999, 10000, 10001], [99998, 99999, 100000, 100001], [0, 9999, 10000, 100000], [7, 10, 9999, 123456], [999, 1000, 99999, 1000000]];
+    for (si, ids) in id_sets.into_iter().enumerate() {
+        for mask in (0..16u32).rev() {
+            // every pattern for the two plain straddles; a selection of patterns for the mixed-width sets
+            if si >= 2 && only.is_none() && ![15, 14, 13, 11, 7, 5, 3, 0].contains(&mask) {
+                continue;
+            }
+            let tails: String = (0..4).map(|k| if mask & (1 << k) != 0 { 'C' } else { 'I' }).collect();
+            let input = json!({"ids": ids, "tails": tails});
+            if skip(only, "ids", &input["ids"]) || skip(only, "tails", &input["tails"]) {
+                continue;
+            }
+            let work = tmp.join("wide_work");
+            let _ = std::fs::remove_dir_all(&work);
+            su!(copy_dir(&template, &work));
+            for k in (0..4usize).rev() {
+                let to = work.join(bid(ids[k]).to_string());
+                let from = work.join(format!("b{k:04}"));
+                if from != to {
+                    su!(std::fs::rename(&from, &to));
+                }
+                if mask & (1 << k) == 0 {
+                    su!(std::fs::remove_file(to.join("BANDTAIL")));
+                }
+            }
+            let names = |v: &[u32]| v.iter().map(|n| bid(*n).to_string()).collect::<Vec<_>>();
+            let state: String = (0..4).map(|k| format!("{}:{}", bid(ids[k]), if mask & (1 << k) != 0 { "complete" } else { "interrupted" })).collect::<Vec<_>>().join(" ");
+            let archive = su!(Archive::open_path(&work).await);
+            // all ids, ascending by NUMBER
+            match archive.list_band_ids().await {
+                Ok(l) if l == ids.iter().map(|n| bid(*n)).collect::<Vec<_>>() => {}
+                other => {
+                    return found(K, input, format!("list_band_ids() = {:?}", other.map(|l| l.iter().map(|b| b.to_string()).collect::<Vec<_>>()).map_err(|e| e.to_string())), &format!("{:?} (ascending by number)", names(&ids)),
+                        "the versions of the archive are not listed in ascending numerical order once their directory names differ in length")
+                }
+            }
+            match archive.last_band_id().await {
+                Ok(Some(b)) if b == bid(ids[3]) => {}
+                other => return found(K, input, format!("last_band_id() = {:?}", other.map(|b| b.map(|b| b.to_string())).map_err(|e| e.to_string())), &bid(ids[3]).to_string(), "the newest version is not the one with the greatest number"),
+            }
+            match archive.resolve_band_id(BandSelectionPolicy::Latest).await {
+                Ok(b) if b == bid(ids[3]) => {}
+                other => return found(K, input, format!("resolve_band_id(Latest) = {:?}", other.map(|b| b.to_string()).map_err(|e| e.to_string())), &bid(ids[3]).to_string(), "the latest policy does not resolve to the version with the greatest number"),
+            }
+            let expected: Option<usize> = (0..4).rev().find(|k| mask & (1 << k) != 0);
+            let exp_text = match expected {
+                Some(k) => format!("{} (the greatest complete band of: {state})", bid(ids[k])),
+                None => format!("no complete band (NoCompleteBands) in: {state}"),
+            };
+            let lcb = match archive.last_complete_band().await {
+                Ok(b) => b.map(|b| b.id()),
+                Err(e) => return found(K, input, format!("last_complete_band() failed: {e}"), &exp_text, "asking for the latest complete version failed on a healthy archive"),
+            };
+            if lcb != expected.map(|k| bid(ids[k])) {
+                return found(K, input, format!("last_complete_band() = {:?}", lcb.map(|b| b.to_string())), &exp_text, "the latest complete version is not the complete version with the greatest number");
+            }
+            match (archive.resolve_band_id(BandSelectionPolicy::LatestClosed).await, expected) {
+                (Ok(id), Some(k)) if id == bid(ids[k]) => {}
+                (Err(conserve::Error::NoCompleteBands), None) => {}
+                (other, _) => {
+                    return found(K, input, format!("resolve_band_id(LatestClosed) = {:?}", other.map(|b| b.to_string()).map_err(|e| e.to_string())), &exp_text,
+                        "the latest-complete policy does not resolve to the complete version with the greatest number")
+                }
+            }
+            let m = TestMonitor::arc();
+            match (entries(&archive, BandSelectionPolicy::LatestClosed, Apath::root(), m.clone()).await, expected) {
+                (Ok(es), Some(k)) => {
+                    let mut want: Vec<String> = vec!["/".into()];
+                    want.extend((0..=k).map(|j| format!("/only_{j}")));
+                    want.push("/v".into());
+                    let got: Vec<String> = es.iter().map(|e| e.apath.to_string()).collect();
+                    if got != want {
+                        return found(K, input, format!("listing with LatestClosed = {got:?}"), &format!("{want:?}: the entries of {exp_text}"), "listing the latest complete version shows another version");
+                    }
+                }
+                (Err(_), None) => {}
+                (Ok(es), None) => return found(K, input, format!("listing with LatestClosed returned {} entries", es.len()), &exp_text, "a version was listed although no complete version exists"),
+                (Err(e), Some(_)) => return found(K, input, format!("listing with LatestClosed failed: {e}"), &exp_text, "listing the latest complete version failed"),
+            }
+            let dest = tmp.join("wide_dest");
+            let _ = std::fs::remove_dir_all(&dest);
+            let m = TestMonitor::arc();
+            match (conserve::restore(&archive, &dest, RestoreOptions::default(), m.clone()).await, expected) {
+                (Ok(()), Some(k)) => {
+                    let errs = m.take_errors();
+                    let v = std::fs::read(dest.join("v")).unwrap_or_default();
+                    let got: BTreeSet<String> = tree_snapshot(&dest).into_keys().collect();
+                    let mut want: BTreeSet<String> = (0..=k).map(|j| format!("/only_{j}")).collect();
+                    want.insert("/v".into());
+                    if !errs.is_empty() || v != format!("content of version {k}").into_bytes() || got != want {
+                        return found(K, input, format!("default restore: {} error(s); /v = {:?}; files {got:?}", errs.len(), String::from_utf8_lossy(&v)),
+                            &format!("/v = \"content of version {k}\": the tree of {exp_text}"), "restore with the default policy did not produce the complete version with the greatest number");
+                    }
+                }
+                (Err(conserve::Error::NoCompleteBands), None) => {}
+                (other, _) => {
+                    return found(K, input, format!("default restore returned {:?}", other.map_err(|e| e.to_string())), &exp_text, "restore with the default policy does not select the complete version with the greatest number")
+                }
+            }
+        }
+    }
+    Ok(None)
 }
 
 // ------------------------------------------------------------------------------------------------------- C03 / C08
@@ -503,7 +633,7 @@ async fn crash_base(dir: PathBuf, band: u32, blocks_before: &BTreeSet<String>, p
     })
 }
 
-fn block_set(apath: &Path) -> BTreeSet<String> {
+pub fn block_set(apath: &Path) -> BTreeSet<String> {
     tree_snapshot(&apath.join("d")).into_iter().filter(|(_, v)| v.is_some()).map(|(k, _)| format!("d{k}")).collect()
 }
 
